@@ -54,11 +54,15 @@ structure RmCfg where
   catches : Bool
   /-- `async_add_listener` purges the expired records before it adds the listener (D23 repair) -/
   purgesFirst : Bool
+  /-- the test `async_updates_from_response` applies to "is this withdrawn record still cached" before it removes it (D24 repair:
+  the identity; without the filter: constantly `true`) -/
+  keepTest : Bool → Bool
 
 /-- the code as it is -/
 def RmCfg.code : RmCfg :=
   { copied1 := Gen.Cache.updates_iterates_copy, copied2 := Gen.Cache.complete_iterates_copy,
-    catches := Gen.Cache.remove_listener_catches_keyerror, purgesFirst := Gen.Cache.add_listener_purges_first }
+    catches := Gen.Cache.remove_listener_catches_keyerror, purgesFirst := Gen.Cache.add_listener_purges_first,
+    keepTest := Gen.Cache.removes_keep_test }
 
 /-- the record manager while callbacks run -/
 structure RSt where
@@ -86,6 +90,12 @@ def RSt.lsAct (st : RSt) (a : ListenerAct) : RSt :=
   | .ok ls => { st with live := ls, trace := st.trace ++ [a] }
   | .error e => { st with err := some e }
 
+/-- sequencing: nothing more runs once an exception is propagating -/
+def RSt.andThen (st : RSt) (f : RSt → RSt) : RSt :=
+  match st.err with
+  | some _ => st
+  | none => f st
+
 /-- one round — `async_updates` (phase 1) or `async_updates_complete` (phase 2) — at nesting depth `depth`; `body` runs one
 callback.  Returns the state and the listeners whose callback was entered, each with the cache it found. -/
 def roundR (body : Nat → Nat → Nat → RSt → RSt) (depth phase : Nat) (st : RSt) : RSt × List (Nat × Cache) :=
@@ -99,47 +109,43 @@ def roundR (body : Nat → Nat → Nat → RSt → RSt) (depth phase : Nat) (st 
       else (body depth phase l { acc.1 with log := acc.1.log ++ [NestEv.call depth phase l []] }, acc.2 ++ [(l, acc.1.cache)])) (st, [])
   if !copied && r.1.err.isNone && r.1.live.length != snap.length then ({ r.1 with err := some .other }, r.2) else r
 
+/-- `if expired: self.async_updates(now, [(r, r) …]); self.async_updates_complete(False)`: the purge's own two rounds, at `depth` -/
+def purgeRounds (body : Nat → Nat → Nat → RSt → RSt) (depth : Nat) (t : Ms) (expired : List Rec) (st : RSt) : RSt :=
+  if expired.isEmpty then st
+  else
+    ((roundR cfg order body depth 1 { st with log := st.log ++ [NestEv.purge depth t expired] }).1).andThen
+      (fun r1 => (roundR cfg order body depth 2 r1).1)
+
+/-- `_async_update_matching_records(listener, questions, now)`: the replay to the new listener `l`, its callbacks at `depth` -/
+def replayTo (body : Nat → Nat → Nat → RSt → RSt) (depth l : Nat) (t : Ms) (qs : List Question) (st : RSt) : RSt :=
+  let recs := replayRecs lower st.cache (Gen.Cache.add_listener_replay_now t) qs
+  if recs.isEmpty then st
+  else
+    (body depth 1 l { st with log := st.log ++ [NestEv.call depth 1 l recs] }).andThen
+      (fun r1 => body depth 2 l { r1 with log := r1.log ++ [NestEv.call depth 2 l []] })
+
+/-- `async_add_listener(l, questions)` called by listener `lid`'s callback running at `depth`, the clock reading `t` -/
+def addWithQuestion (body : Nat → Nat → Nat → RSt → RSt) (depth lid l : Nat) (t : Ms) (qs : List Question) (st : RSt) : RSt :=
+  let st := { st with log := st.log ++ [NestEv.addq depth lid l t], reads := st.reads ++ [t] }
+  let purged : Except PyExc (Cache × List Rec) :=
+    if cfg.purgesFirst then expire (Cache.ops lower) st.cache (Gen.Cache.add_listener_purge_expire_now t) else .ok (st.cache, [])
+  match purged with
+  | .error e => { st with err := some e }
+  | .ok out =>
+    (purgeRounds cfg order body (depth + 1) t out.2 { st with cache := out.1 }).andThen
+      (fun st2 => replayTo lower body (depth + 1) l t qs (st2.lsAct cfg (.add l)))
+
 /-- one action of the callback of listener `lid` running at `depth`; `body` runs a callback one level down -/
 def doAct (body : Nat → Nat → Nat → RSt → RSt) (depth lid : Nat) (st : RSt) : CbAct → RSt
   | .add l => st.lsAct cfg (.add l)
   | .remove l => st.lsAct cfg (.remove l)
-  | .addQ l t qs =>
-    let st := { st with log := st.log ++ [NestEv.addq depth lid l t], reads := st.reads ++ [t] }
-    let purged : Except PyExc (Cache × List Rec) :=
-      if cfg.purgesFirst then expire (Cache.ops lower) st.cache (Gen.Cache.add_listener_purge_expire_now t) else .ok (st.cache, [])
-    match purged with
-    | .error e => { st with err := some e }
-    | .ok out =>
-      let st1 := { st with cache := out.1 }
-      -- `if expired:` the purge's own two rounds
-      let st2 :=
-        if out.2.isEmpty then st1
-        else
-          let r1 := (roundR cfg order body (depth + 1) 1 { st1 with log := st1.log ++ [NestEv.purge (depth + 1) t out.2] }).1
-          match r1.err with
-          | some _ => r1
-          | none => (roundR cfg order body (depth + 1) 2 r1).1
-      match st2.err with
-      | some _ => st2
-      | none =>
-        let st3 := st2.lsAct cfg (.add l)
-        -- `_async_update_matching_records`
-        let recs := replayRecs lower st3.cache (Gen.Cache.add_listener_replay_now t) qs
-        if recs.isEmpty then st3
-        else
-          let r1 := body (depth + 1) 1 l { st3 with log := st3.log ++ [NestEv.call (depth + 1) 1 l recs] }
-          match r1.err with
-          | some _ => r1
-          | none => body (depth + 1) 2 l { r1 with log := r1.log ++ [NestEv.call (depth + 1) 2 l []] }
+  | .addQ l t qs => addWithQuestion lower cfg order body depth lid l t qs st
 
 /-- the body of a callback: its actions in order, up to the first that raises -/
 def cbBody : Nat → Nat → Nat → Nat → RSt → RSt
   | 0, _, _, _, st => st
   | fuel + 1, depth, phase, l, st =>
-    (react depth phase l).foldl (fun st a =>
-      match st.err with
-      | some _ => st
-      | none => doAct lower cfg order (cbBody fuel) depth l st a) st
+    (react depth phase l).foldl (fun st a => st.andThen (fun st => doAct lower cfg order (cbBody fuel) depth l st a)) st
 
 /-- what one datagram does when the callbacks may re-enter the record manager -/
 structure DeliveryR where
@@ -164,7 +170,7 @@ def deliverRWith (fuel : Nat) (c : Cache) (ls : List Nat) (now : Ms) (recs : Lis
   let a := ingestPre lower (Cache.ops lower) c now recs
   let afterAdds (c1 : Cache) : Cache := (addAll (Cache.ops lower) (addAll (Cache.ops lower) c1 a.addrAdds).1 a.otherAdds).1
   if a.updates.isEmpty then
-    match ingestFinish (Cache.ops lower) a.cache a with
+    match ingestFinishWith (Cache.ops lower) cfg.keepTest a.cache a with
     | .error e => { pre := a, r1 := none, fin := none, r2 := none, cache := afterAdds a.cache, listeners := ls, err := some e }
     | .ok f => { pre := a, r1 := none, fin := some f, r2 := none, cache := f.1, listeners := ls, err := none }
   else
@@ -172,7 +178,7 @@ def deliverRWith (fuel : Nat) (c : Cache) (ls : List Nat) (now : Ms) (recs : Lis
     match r1.1.err with
     | some e => { pre := a, r1 := some r1, fin := none, r2 := none, cache := r1.1.cache, listeners := r1.1.live, err := some e }
     | none =>
-      match ingestFinish (Cache.ops lower) r1.1.cache a with
+      match ingestFinishWith (Cache.ops lower) cfg.keepTest r1.1.cache a with
       | .error e => { pre := a, r1 := some r1, fin := none, r2 := none, cache := afterAdds r1.1.cache, listeners := r1.1.live, err := some e }
       | .ok f =>
         let r2 := roundR cfg order (cbBody lower cfg order react fuel) 0 2 { live := r1.1.live, cache := f.1 }
